@@ -1,7 +1,10 @@
 #!/bin/sh
-# offline setup: nothing is fetched. Verus units need no build; Kani target and replay crate are warmed if present.
-set -e
+# offline setup: nothing is fetched. Verus units need no build; the Kani target directory is warmed (crate + deps compiled
+# once under cfg(kani)) so that the first quick check does not pay the cold build.
 cd /verif
 mkdir -p build evidence replays
-verus --version >/dev/null
+export PATH="$PATH:/root/.cargo/bin"
+export CARGO_NET_OFFLINE=true
+verus --version >/dev/null || exit 1
+( cd /repo/oxidize-pdf-core && CARGO_TARGET_DIR=/verif/build/kani-target timeout 1500 cargo kani -Z function-contracts -Z stubbing --output-format terse --harness c01_hex_digit_value >/verif/build/setup_kani.log 2>&1 ) || echo "warning: kani warm-up did not complete (checks will build on first use)"
 exit 0
